@@ -342,6 +342,22 @@ func (x *Exec) callFunc(s *State, call *ast.CallExpr, f *types.Func, recv *Term)
 		r.GoType = old.GoType
 		s.assume(Eq(sliceLen(r), sliceLen(old)))
 		s.assume(mk("isPerm_"+mangle(old.Sort), SBool, old, r))
+		// the permutation made explicit: r[k] == old[perm[k]], old[e] == r[inv[e]], perm and inv mutually inverse on 0..len
+		{
+			pa := x.fresh("sortperm", arraySort(SInt, SInt))
+			ia := x.fresh("sortinv", arraySort(SInt, SInt))
+			k := V("k!sp", SInt)
+			n := sliceLen(old)
+			inR := And(Le(Num(0), k), Lt(k, n))
+			pk := Select(pa, k)
+			ik := Select(ia, k)
+			f1 := Forall([]*Term{k}, Implies(inR, And(Le(Num(0), pk), Lt(pk, n), Eq(Select(x.u.sliceArr(r), k), Select(x.u.sliceArr(old), pk)), Eq(Select(ia, pk), k))))
+			f1.Pats = [][]*Term{{Select(x.u.sliceArr(r), k)}}
+			f2 := Forall([]*Term{k}, Implies(inR, And(Le(Num(0), ik), Lt(ik, n), Eq(Select(x.u.sliceArr(old), k), Select(x.u.sliceArr(r), ik)), Eq(Select(pa, ik), k))))
+			f2.Pats = [][]*Term{{Select(x.u.sliceArr(old), k)}}
+			s.assume(f1)
+			s.assume(f2)
+		}
 		s.assume(mk("isSortedBy_"+mangle(old.Sort), SBool, cmp, r))
 		x.assignTo(s, call.Args[0], r)
 		x.assumptions["slices.SortFunc is modelled as assigning a sorted permutation to its argument (sortedness w.r.t. cmp holds only if cmp is a strict weak order)"] = true
